@@ -101,9 +101,32 @@ def run(ctx, model_ok):
             lang = "tr"
             text = " ".join(f"{n} {rng.choice(TR_IN[u])}" for n, u in parts)
         cases.append({"text": text, "secs": total, "kind": kind, "nparts": nparts, "lang": lang})
+    # durations held in variables: a name written next to a duration (or next to another name) adds like the duration it holds,
+    # and + / - and 'as' see the value, in both languages
+    for _ in range(ctx.n(400, 8000)):
+        lang = rng.choice(["en", "en", "tr"])
+        spell = (lambda n, u: f"{n} {word(rng, u, n)}") if lang == "en" else (lambda n, u: f"{n} {rng.choice(TR_IN[u])}")
+        pa = [(count(rng), rng.choice(ORDER)) for _ in range(rng.choice([1, 1, 2, 3]))]
+        pb = [(count(rng), rng.choice(ORDER)) for _ in range(rng.choice([1, 1, 2]))]
+        ta, tb = " ".join(spell(n, u) for n, u in pa), " ".join(spell(n, u) for n, u in pb)
+        sa, sb = sum(unit_secs(n, u) for n, u in pa), sum(unit_secs(n, u) for n, u in pb)
+        na, nb = rng.choice([("x", "y"), ("shift", "pause"), ("sure", "mola"), ("d1", "d2")])
+        k = rng.random()
+        if k < 0.3:
+            text, total = f"{na} = {ta}\n{na} {tb}", sa + sb
+        elif k < 0.5:
+            text, total = f"{na} = {ta}\n{tb} {na}", sa + sb
+        elif k < 0.7:
+            text, total = f"{na} = {ta}\n{nb} = {tb}\n{na} {nb}", sa + sb
+        elif k < 0.85:
+            op = rng.choice("+-")
+            text, total = f"{na} = {ta}\n{na} {op} {tb}", (sa + sb if op == "+" else sa - sb)
+        else:
+            text, total = f"{na} = {ta}\n{nb} = {tb}\n{na} {nb} {ta}", 2 * sa + sb
+        cases.append({"text": text, "secs": total, "kind": "var", "nparts": len(pa) + len(pb), "lang": lang, "last": True})
     res = C.run_impl([{"op": "exec", "lang": c["lang"], "text": c["text"]} for c in cases])
     for c, r in zip(cases, res):
-        l = r.get("lines", [None])[0] if "lines" in r else None
+        l = r.get("lines", [None])[-1 if c.get("last") else 0] if "lines" in r else None
         ops = [{"op": "exec", "lang": c["lang"], "text": c["text"]}]
         ctx.seen(c["text"], c["nparts"] >= 2 or c["kind"] != "seq")
         ctx.count("lang:" + c["lang"])
@@ -138,7 +161,7 @@ def run(ctx, model_ok):
             ctx.sample({"text": c["text"], "secs": v["secs"], "printed": l["out"]})
     if model_ok:
         co = wire.Corr(ctx, compare=("kind", "value", "out", "calc"))
-        co.run([{"lang": c["lang"], "text": c["text"]} for c in cases[:ctx.n(1500, 20000)]])
+        co.run([{"lang": c["lang"], "text": c["text"]} for c in cases[:ctx.n(1500, 20000)] + [c for c in cases if c["kind"] == "var"][:ctx.n(300, 4000)]])
         ctx.dist.update({"corr:" + k: v for k, v in co.stats.items()})
 
 
